@@ -70,7 +70,8 @@ inductive Op
   | commitW                  -- producer: `commit_write`
   | loadW (v : Nat)          -- consumer: load of the writer position inside `empty()`, result `v`
   | read (n : Nat)           -- consumer: payload loads of the record at `rpos`, `finish_read n`
-  | commitR                  -- consumer: `commit_read`
+  | commitR (pub : Bool)     -- consumer: `commit_read`; `pub`: whether it stores the reader position
+                             -- (safety holds for every publication policy; the C++ policy is `publishes`)
   deriving Repr
 
 /-- what the C++ tests before each step, plus the legality of a load result -/
@@ -80,7 +81,7 @@ def Enabled (s : St) : Op → Prop
   | .commitW   => True
   | .loadW v   => v ∈ s.wHist ∧ s.wcache ≤ v
   | .read n    => s.rpos < s.wcache ∧ n = s.endOf s.rpos - s.rpos
-  | .commitR   => True
+  | .commitR _ => True
 
 instance (s : St) (op : Op) : Decidable (Enabled s op) := by
   cases op <;> unfold Enabled <;> infer_instance
@@ -101,7 +102,7 @@ def step (o : Params) (s : St) : Op → St
   | .commitW   => { s with wHist := s.wpos :: s.wHist }
   | .loadW v   => { s with wcache := v, cHb := if o.syncW then max s.cHb v else s.cHb }
   | .read n    => { s with rpos := s.rpos + n, nread := s.nread + 1 }
-  | .commitR   => if publishes o s then { s with rHist := s.rpos :: s.rHist } else s
+  | .commitR b => if b then { s with rHist := s.rpos :: s.rHist } else s
 
 /-- safety obligations of a step: what must never go wrong -/
 def Safe (s : St) : Op → Prop
